@@ -53,9 +53,21 @@ class Target:
         raise KeyError("nope")
 
 
+@expose
+class SessionTarget:
+    """registered as a class (an instance per connection): its constructor runs on behalf of the connection's first request"""
+
+    def __init__(self):
+        snapshot("constructor")
+
+    def plain(self):
+        snapshot("plain")
+        return 3
+
+
 STEP1 = ["call-tagged", "call-tagged_raise", "oneway-tagged_oneway", "batch-tagged", "batch-tagged_raise",
          "call-unknown-member", "call-unknown-object", "call-tagged_stream", "batchoneway-tagged"]
-STEP2 = ["call-plain", "call-plain_raise", "ping", "handshake", "batch-plain", "oneway-then-call"]
+STEP2 = ["call-plain", "call-plain_raise", "ping", "handshake", "batch-plain", "oneway-then-call", "call-sessionclass"]
 
 
 def request_for(kind, seq, ser, flags_extra, ann, corr):
@@ -73,6 +85,8 @@ def request_for(kind, seq, ser, flags_extra, ann, corr):
         call = ("obj", "nosuchmember", (), {})
     elif member == "unknown-object":
         call = ("nosuchobject", "plain", (), {})
+    elif member == "sessionclass":
+        call = ("cls", "plain", (), {})       # the first request of this connection for a class registered per session
     else:
         call = ("obj", member, (), {})
     return rig.build_message(protocol.MSG_INVOKE, f, seq, ser, call, ann, corr), f
@@ -94,6 +108,8 @@ def h_two_steps(S, B):
     run_oneway_thread_early = S.flag("oneway_thread_runs_before_step2")
     daemon = rig.make_daemon()
     daemon.objectsById["obj"] = Target()
+    daemon.objectsById["cls"] = SessionTarget
+    SessionTarget._pyroInstancing = ("session", None)
     sockA = rig.FakeSock("A", ("10.0.0.1", 1111))
     sockB = rig.FakeSock("B", ("10.0.0.2", 2222))
     connA = rig.connection(sockA)
@@ -166,6 +182,7 @@ def h_two_steps(S, B):
     # ---- oracle: the context each method saw is that of its own request
     for rec in SEEN:
         tag, client, addr, seq, mflags, ser, anns, corr = rec
+        S.cover("seen:" + tag)
         if tag.startswith("tagged"):
             S.check("A-method-sees-A-connection", client is connA)
             S.check("A-method-sees-A-peer", addr == ("10.0.0.1", 1111))
@@ -279,8 +296,8 @@ SPECS = [
          native_patch=env.native_env, reset=_reset,
          desc="two consecutive calls of one client thread through the real Proxy._pyroInvoke against the real daemon (served on its own thread): first call tagged / plain / raising, second call plain / tagged / raising / oneway / reply lost / server gone; the client's response annotations after each call are those of that call's reply only"),
     Spec("two_steps", h_two_steps, {"quick": {"SERS": [1, 3], "FLAGSB": False}, "thorough": {"SERS": [1, 2, 3, 4], "FLAGSB": True}},
-         covers=["two-steps", "check:B-reply-carries-no-annotation-of-A", "check:A-method-sees-A-seq",
+         covers=["two-steps", "seen:constructor", "check:B-reply-carries-no-annotation-of-A", "check:A-method-sees-A-seq",
                  "check:B-method-sees-B-connection"],
          native_patch=env.native_env, reset=_reset,
-         desc="client A's request (7 kinds; method sets a response annotation and records its context) followed on the same serving thread by client B's request (6 kinds incl. ping and handshake); symbolic seq/flags/serializer; the oneway thread runs before or after step 2"),
+         desc="client A's request (7 kinds; method sets a response annotation and records its context) followed on the same serving thread by client B's request (7 kinds incl. ping, handshake and the first call on a per-session class, whose constructor records the context too); symbolic seq/flags/serializer; the oneway thread runs before or after step 2"),
 ]
